@@ -47,7 +47,27 @@ class NdiRec:
     def __init__(self):
         self.calls = []
 
-    def _mk(self, name, img, *a, **k):
+    PRIMARY = {"sigma", "shift", "zoom"}  # the pixel-unit argument of each call: always reported positionally, whatever the call syntax was
+
+    def _mk(self, name, *args, **kwargs):
+        """the call is bound against scipy.ndimage's real signature, so positional and keyword spellings of the same call are recorded identically:
+        (name, input image, (primary pixel argument,)?, every other argument by name)"""
+        import inspect
+
+        import scipy.ndimage as real_ndi
+
+        fn = getattr(real_ndi, name, None)
+        try:
+            bound = inspect.signature(fn).bind(*args, **kwargs) if fn is not None else None
+        except TypeError:
+            raise
+        if bound is None:
+            img, a, k = args[0], tuple(args[1:]), dict(kwargs)
+        else:
+            names = list(bound.arguments)
+            img = bound.arguments[names[0]]
+            a = tuple(bound.arguments[n] for n in names[1:] if n in self.PRIMARY)
+            k = {n: bound.arguments[n] for n in names[1:] if n not in self.PRIMARY}
         r = (name, img, a, k)
         self.calls.append(r)
         return TagArr(np.shape(img) if np.ndim(img) == 3 else (1, 1, 2), r)
@@ -55,7 +75,7 @@ class NdiRec:
     def __getattr__(self, name):
         if name.startswith("_"):
             raise AttributeError(name)
-        return lambda img, *a, **k: self._mk(name, img, *a, **k)
+        return lambda *a, **k: self._mk(name, *a, **k)
 
 
 def _load(patches=None, keep_cache=False):
@@ -63,8 +83,8 @@ def _load(patches=None, keep_cache=False):
     rec = NdiRec()
     L["acryo.pipe._masking"].ndi = rec
     L["acryo.pipe._transform"].ndi = rec
-    L["acryo.pipe._transform"].ndi_shift = lambda img, *a, **k: rec._mk("shift", img, *a, **k)
-    L["acryo.pipe._imread"].zoom = lambda img, *a, **k: rec._mk("zoom", img, *a, **k)
+    L["acryo.pipe._transform"].ndi_shift = lambda *a, **k: rec._mk("shift", *a, **k)
+    L["acryo.pipe._imread"].zoom = lambda *a, **k: rec._mk("zoom", *a, **k)
     L.ndi = rec
     return L
 
